@@ -48,6 +48,12 @@ FIRST = {
     "C07-7": "missed", "C08-6": "caught (replay)", "C09-7": "missed", "C10-7": "missed", "C11-7": "missed",
     "C12-7": "translator failure + refinement theorems C14_gen_uniform_* broken, no-failing-input-found", "C13-7": "missed", "C14-7": "missed",
     "C15-7": "caught (replay)", "C16-7": "missed", "C17-7": "missed", "C18-7": "missed", "C19-7": "missed", "C20-7": "caught (replay)",
+    # round 8
+    "C01-8": "caught (replay)", "C02-8": "caught (replay)", "C03-8": "missed", "C04-8": "missed", "C05-8": "missed",
+    "C06-8": "correspondence of mie_fields broken, no-failing-input-found", "C07-8": "missed", "C08-7": "missed",
+    "C09-8": "translator failure + refinement theorems C09_gen_choose / C04_gen_rule_unit_free broken, no-failing-input-found", "C10-8": "caught (replay)",
+    "C11-8": "missed", "C12-8": "translator failure + refinement theorem C12_gen_limit_overlaps broken, no-failing-input-found", "C13-8": "missed", "C14-8": "missed",
+    "C15-8": "missed", "C16-8": "missed", "C17-8": "caught (replay)", "C18-8": "missed", "C19-8": "translator failure (math.py), no-failing-input-found", "C20-8": "caught (replay)",
 }
 
 
